@@ -233,7 +233,10 @@ func runC08(c *eng.Ctx) {
 		for _, f := range []string{"TTL.Count", "TTL.Unit"} {
 			if _, ok := wsh[f]; !ok {
 				// unshifted operand of the sum
-				for _, in := range eng.Find(wf, func(in ssa.Instruction) bool { b, ok := in.(*ssa.BinOp); return ok && (b.Op == token.ADD || b.Op == token.OR) }) {
+				for _, in := range eng.Find(wf, func(in ssa.Instruction) bool {
+					b, ok := in.(*ssa.BinOp)
+					return ok && (b.Op == token.ADD || b.Op == token.OR)
+				}) {
 					b := in.(*ssa.BinOp)
 					for _, side := range []ssa.Value{b.X, b.Y} {
 						if _, isShift := side.(*ssa.BinOp); !isShift && eng.MentionsField(side, f) {
@@ -396,16 +399,18 @@ func runC08(c *eng.Ctx) {
 		wm := eng.LayoutMap(wi, func(n string) bool { return strings.HasPrefix(n, "param:") })
 		rm := eng.LayoutMap(ri, func(n string) bool { return strings.HasPrefix(n, "result:") })
 		exp := map[string][2]string{
-			fmt.Sprintf("[0:%d]", idSize):                                      {"param:key", "result:key"},
-			fmt.Sprintf("[%d:%d]", idSize, idSize+offSize):                     {"param:offset", "result:offset"},
-			fmt.Sprintf("[%d:%d]", idSize+offSize, idSize+offSize+szSize):      {"param:size", "result:size"},
+			fmt.Sprintf("[0:%d]", idSize):                                 {"param:key", "result:key"},
+			fmt.Sprintf("[%d:%d]", idSize, idSize+offSize):                {"param:offset", "result:offset"},
+			fmt.Sprintf("[%d:%d]", idSize+offSize, idSize+offSize+szSize): {"param:size", "result:size"},
 		}
 		for k, e := range exp {
 			c.Ob("CODEC-idx", "entry"+k, wm[k] == e[0] && rm[k] == e[1], wf.Pos(), fmt.Sprintf("ToBytes writes %q, IdxFileEntry reads %q at %s", wm[k], rm[k], k))
 		}
 	}
 	if wf, rf := c.NeedFunc("weed/storage/types", "OffsetToBytes"), c.NeedFunc("weed/storage/types", "BytesToOffset"); wf != nil && rf != nil {
-		keep := func(n string) bool { return strings.HasPrefix(n, "OffsetLower.") || strings.HasPrefix(n, "OffsetHigher.") }
+		keep := func(n string) bool {
+			return strings.HasPrefix(n, "OffsetLower.") || strings.HasPrefix(n, "OffsetHigher.")
+		}
 		wi, _ := eng.BufferLayout(wf, func(v ssa.Value) bool { return eng.IsParam(v, "bytes") }, true)
 		ri, _ := eng.BufferLayout(rf, func(v ssa.Value) bool { return eng.IsParam(v, "bytes") }, false)
 		wm, rm := eng.LayoutMap(wi, keep), eng.LayoutMap(ri, keep)
